@@ -1,14 +1,16 @@
 /-
   C23 — stress measure conversions and the kinematic helpers used by the tangent-operator
-  converters (property theorems only).
+  converters (property theorems only), N = 1, 2, 3.
 
   `Gen.*` are regenerated on every run by instantiating the shipped TFEL templates with a recording
-  scalar (harness/C23/trace.cxx). Conventions: `c` is any element with `c * c = 2` of a field of
-  characteristic ≠ 2; a deformation gradient `F : M3 K` is fed through its tensor storage `tensv F`
-  (t00 t11 t22 t01 t10 t02 t20 t12 t21), a symmetric tensor through its Mandel storage `mandv c A`;
-  2D objects are `plane …` (five entries), 1D objects `dg …` (diagonal). Results come back as lists
-  in the same storages (`M3.ofTens`, `M3.ofMandel c` read them back as matrices).
-  Definitions are stated division free where possible: `P Fᵀ = J σ`, `F S Fᵀ = J σ`, `U S U = J σ̃`.
+  scalar (harness/C23/trace.cxx → harness/C23/emit23.py). Conventions: `c` is any element with
+  `c * c = 2` of a field of characteristic ≠ 2 (ℝ with √2: Common/Model.lean). A deformation gradient
+  `F : M3 K` is fed through its tensor storage `tensv F` (t00 t11 t22 t01 t10 t02 t20 t12 t21); 2D
+  tensors are `plane f0 f1 f2 f3 f4`, 1D tensors `dg f0 f1 f2`. A stress is fed as an *arbitrary*
+  stored vector `s : Nat → K`; the symmetric matrix it denotes is `M3.ofMandel c [s 0, …]` (Mandel
+  storage), a first Piola–Kirchhoff stress `p` denotes `M3.ofTens [p 0, …]`. Results come back as lists
+  in the same storages. Definitions are stated division free: `P Fᵀ = J σ`, `F S Fᵀ = J σ`,
+  `U S U = det U · σ̃`; `J σ = P Fᵀ`, … for the inverse maps; the round trips follow.
 -/
 import TfelVerif.Common.M3
 import TfelVerif.C23.Spec
@@ -19,30 +21,27 @@ namespace TfelVerif.C23.PropsStress
 open TfelVerif TfelVerif.Mandel TfelVerif.C23
 set_option linter.unusedVariables false
 set_option linter.style.nameCheck false
+set_option maxHeartbeats 4000000
 variable {K : Type} [Field K] (c c3 : K) (fn : Fns K)
 
 /-! ## 3D -/
 section N3
-variable (F : M3 K) (a00 a11 a22 a01 a02 a12 : K)
-local notation "σ" => M3.sym a00 a11 a22 a01 a02 a12
-
+variable (F : M3 K) (s p u : Nat → K)
 /-- `det` of a tensor is the determinant -/
 theorem N3_det : Gen.N3_det_r c c3 fn (tensv F) = F.det := by
   obtain ⟨f00,f01,f02,f10,f11,f12,f20,f21,f22⟩ := F
   c23_unfold; ring
-
-/-- the traced divisor of `invert` is the determinant -/
-theorem N3_invert_den : Gen.N3_invert_den0 c c3 fn (tensv F) = F.det := by
-  obtain ⟨f00,f01,f02,f10,f11,f12,f20,f21,f22⟩ := F
-  c23_unfold; ring
 /-- `invert`: `F * invert F = 1` when `det F ≠ 0` -/
-theorem N3_invert (hJ : F.det ≠ 0) : F * M3.ofTens (Gen.N3_invert_r c c3 fn (tensv F)) = 1 := by
-  have hd := hJ; rw [← N3_invert_den c c3 fn] at hd
+theorem N3_invert (hc : c * c = 2) (hJ : F.det ≠ 0) : F * M3.ofTens (Gen.N3_invert_r c c3 fn (tensv F)) = 1 := by
+  have hd : Gen.N3_invert_den0 c c3 fn (tensv F) ≠ 0 := by
+    have : Gen.N3_invert_den0 c c3 fn (tensv F) = F.det := by
+      obtain ⟨f00,f01,f02,f10,f11,f12,f20,f21,f22⟩ := F
+      c23_unfold; ring
+    rw [this]; exact hJ
   obtain ⟨f00,f01,f02,f10,f11,f12,f20,f21,f22⟩ := F
   c23_rat hc with hd
-
 /-- `computeDeterminantDerivative` is the cofactor matrix: `dJ Fᵀ = det F · 1` … -/
-theorem N3_dJ_cofactor : M3.ofTens (Gen.N3_dJ_r c c3 fn (tensv F)) * F.transpose = F.det • (1 : M3 K) := by
+theorem N3_dJ_cofactor (hc : c * c = 2) : M3.ofTens (Gen.N3_dJ_r c c3 fn (tensv F)) * F.transpose = F.det • (1 : M3 K) := by
   obtain ⟨f00,f01,f02,f10,f11,f12,f20,f21,f22⟩ := F
   c23_poly hc
 /-- … hence Jacobi's formula along `δF = L F`: `dJ : δF = det F · tr L` -/
@@ -50,8 +49,7 @@ theorem N3_dJ_jacobi (L : M3 K) : dot (Gen.N3_dJ_r c c3 fn (tensv F)) (M3.tens3 
   obtain ⟨f00,f01,f02,f10,f11,f12,f20,f21,f22⟩ := F
   obtain ⟨l00,l01,l02,l10,l11,l12,l20,l21,l22⟩ := L
   c23_unfold; ring
-
-/-- right Cauchy–Green tensor `C = FᵀF`, Green–Lagrange strain `E = (C − 1)/2` -/
+/-- right Cauchy–Green tensor `C = FᵀF` and Green–Lagrange strain `E = (C − 1)/2` -/
 theorem N3_rightCauchyGreen (hc : c * c = 2) :
     Gen.N3_rightCauchyGreen_r c c3 fn (tensv F) = M3.mandel3 c (F.transpose * F) := by
   obtain ⟨f00,f01,f02,f10,f11,f12,f20,f21,f22⟩ := F
@@ -61,87 +59,174 @@ theorem N3_greenLagrange (hc : c * c = 2) (h2 : (2:K) ≠ 0) :
   have hc0 : c ≠ 0 := c_ne_zero hc h2
   obtain ⟨f00,f01,f02,f10,f11,f12,f20,f21,f22⟩ := F
   c23_rat0 hc
-
 /-- `unsyme` writes a symmetric tensor in full tensor storage -/
 theorem N3_unsyme (hc : c * c = 2) (h2 : (2:K) ≠ 0) :
-    M3.ofTens (Gen.N3_unsyme_r c c3 fn (mandv c σ)) = σ := by
+    M3.ofTens (Gen.N3_unsyme_r c c3 fn s) = M3.ofMandel c [s 0, s 1, s 2, s 3, s 4, s 5] := by
   have hc0 : c ≠ 0 := c_ne_zero hc h2
   c23_rat0 hc
-
 /-- `push_forward(S, F) = F S Fᵀ` -/
-theorem N3_push_forward (hc : c * c = 2) :
-    Gen.N3_push_forward_r c c3 fn (mandv c σ) (tensv F) = M3.mandel3 c (F * σ * F.transpose) := by
+theorem N3_push_forward (hc : c * c = 2) (h2 : (2:K) ≠ 0) :
+    M3.ofMandel c (Gen.N3_push_forward_r c c3 fn s (tensv F)) = F * M3.ofMandel c [s 0, s 1, s 2, s 3, s 4, s 5] * F.transpose := by
+  have hc0 : c ≠ 0 := c_ne_zero hc h2
   obtain ⟨f00,f01,f02,f10,f11,f12,f20,f21,f22⟩ := F
-  c23_poly hc
-
+  c23_rat0 hc
 /-! ### first Piola–Kirchhoff stress: `P Fᵀ = J σ` -/
 theorem N3_cauchy_to_pk1 (hc : c * c = 2) (h2 : (2:K) ≠ 0) :
-    M3.ofTens (Gen.N3_cauchy_to_pk1_r c c3 fn (mandv c σ) (tensv F)) * F.transpose = F.det • σ := by
+    M3.ofTens (Gen.N3_cauchy_to_pk1_r c c3 fn s (tensv F)) * F.transpose = F.det • M3.ofMandel c [s 0, s 1, s 2, s 3, s 4, s 5] := by
+  have hc0 : c ≠ 0 := c_ne_zero hc h2
   obtain ⟨f00,f01,f02,f10,f11,f12,f20,f21,f22⟩ := F
   c23_rat0 hc
-/-- `σ = P Fᵀ / J` (the code reads the lower triangle of `P Fᵀ`): for every tensor `P` -/
-theorem N3_pk1_to_cauchy (hc : c * c = 2) (h2 : (2:K) ≠ 0) (P : M3 K) (hJ : F.det ≠ 0) :
-    (Gen.N3_pk1_to_cauchy_r c c3 fn (tensv P) (tensv F)).map (F.det * ·)
-      = M3.mandel3 c (P * F.transpose).transpose := by
-  have hd : Gen.N3_pk1_to_cauchy_den0 c c3 fn (tensv P) (tensv F) ≠ 0 := by
-    have : Gen.N3_pk1_to_cauchy_den0 c c3 fn (tensv P) (tensv F) = F.det := by
-      obtain ⟨f00,f01,f02,f10,f11,f12,f20,f21,f22⟩ := F
-      c23_unfold; ring
-    rw [this]; exact hJ
-  obtain ⟨f00,f01,f02,f10,f11,f12,f20,f21,f22⟩ := F
-  obtain ⟨p00,p01,p02,p10,p11,p12,p20,p21,p22⟩ := P
-  c23_rat hc with hd
-/-- mutually inverse: `σ ↦ P ↦ σ` -/
-theorem N3_pk1_roundtrip (hc : c * c = 2) (h2 : (2:K) ≠ 0) (hJ : F.det ≠ 0) :
-    Gen.N3_pk1_to_cauchy_r c c3 fn (Gen.N3_cauchy_to_pk1_rv c c3 fn (mandv c σ) (tensv F)) (tensv F)
-      = M3.mandel3 c σ := by
-  have hd : Gen.N3_pk1_to_cauchy_den0 c c3 fn (Gen.N3_cauchy_to_pk1_rv c c3 fn (mandv c σ) (tensv F)) (tensv F) ≠ 0 := by
-    have : Gen.N3_pk1_to_cauchy_den0 c c3 fn (Gen.N3_cauchy_to_pk1_rv c c3 fn (mandv c σ) (tensv F)) (tensv F) = F.det := by
+/-- `J σ = P Fᵀ`; the code reads the lower triangle of `P Fᵀ` (symmetric for a physical `P`) -/
+theorem N3_pk1_to_cauchy (hc : c * c = 2) (h2 : (2:K) ≠ 0) (hJ : F.det ≠ 0) :
+    F.det • M3.ofMandel c (Gen.N3_pk1_to_cauchy_r c c3 fn p (tensv F)) = symLower (M3.ofTens [p 0, p 1, p 2, p 3, p 4, p 5, p 6, p 7, p 8] * F.transpose) := by
+  have hc0 : c ≠ 0 := c_ne_zero hc h2
+  have hd : Gen.N3_pk1_to_cauchy_den0 c c3 fn p (tensv F) ≠ 0 := by
+    have : Gen.N3_pk1_to_cauchy_den0 c c3 fn p (tensv F) = F.det := by
       obtain ⟨f00,f01,f02,f10,f11,f12,f20,f21,f22⟩ := F
       c23_unfold; ring
     rw [this]; exact hJ
   obtain ⟨f00,f01,f02,f10,f11,f12,f20,f21,f22⟩ := F
   c23_rat hc with hd
-
 /-! ### second Piola–Kirchhoff stress: `F S Fᵀ = J σ` -/
-theorem N3_cauchy_to_pk2_den : Gen.N3_cauchy_to_pk2_den0 c c3 fn (mandv c σ) (tensv F) = F.det := by
-  obtain ⟨f00,f01,f02,f10,f11,f12,f20,f21,f22⟩ := F
-  c23_unfold; ring
-set_option maxHeartbeats 4000000 in
 theorem N3_cauchy_to_pk2 (hc : c * c = 2) (h2 : (2:K) ≠ 0) (hJ : F.det ≠ 0) :
-    F * M3.ofMandel c (Gen.N3_cauchy_to_pk2_r c c3 fn (mandv c σ) (tensv F)) * F.transpose = F.det • σ := by
+    F * M3.ofMandel c (Gen.N3_cauchy_to_pk2_r c c3 fn s (tensv F)) * F.transpose = F.det • M3.ofMandel c [s 0, s 1, s 2, s 3, s 4, s 5] := by
   have hc0 : c ≠ 0 := c_ne_zero hc h2
-  have hd := hJ; rw [← N3_cauchy_to_pk2_den c c3 fn F a00 a11 a22 a01 a02 a12] at hd
+  have hd : Gen.N3_cauchy_to_pk2_den0 c c3 fn s (tensv F) ≠ 0 := by
+    have : Gen.N3_cauchy_to_pk2_den0 c c3 fn s (tensv F) = F.det := by
+      obtain ⟨f00,f01,f02,f10,f11,f12,f20,f21,f22⟩ := F
+      c23_unfold; ring
+    rw [this]; exact hJ
   obtain ⟨f00,f01,f02,f10,f11,f12,f20,f21,f22⟩ := F
   c23_rat hc with hd
-theorem N3_pk2_to_cauchy_den : Gen.N3_pk2_to_cauchy_den0 c c3 fn (mandv c σ) (tensv F) = F.det := by
-  obtain ⟨f00,f01,f02,f10,f11,f12,f20,f21,f22⟩ := F
-  c23_unfold; ring
-/-- `σ = F S Fᵀ / J` (here `σ` names the second Piola–Kirchhoff stress given as input) -/
+/-- `J σ = F S Fᵀ` (`p` is the stored second Piola–Kirchhoff stress) -/
 theorem N3_pk2_to_cauchy (hc : c * c = 2) (h2 : (2:K) ≠ 0) (hJ : F.det ≠ 0) :
-    F.det • M3.ofMandel c (Gen.N3_pk2_to_cauchy_r c c3 fn (mandv c σ) (tensv F)) = F * σ * F.transpose := by
+    F.det • M3.ofMandel c (Gen.N3_pk2_to_cauchy_r c c3 fn p (tensv F)) = F * M3.ofMandel c [p 0, p 1, p 2, p 3, p 4, p 5] * F.transpose := by
   have hc0 : c ≠ 0 := c_ne_zero hc h2
-  have hd := hJ; rw [← N3_pk2_to_cauchy_den c c3 fn F a00 a11 a22 a01 a02 a12] at hd
+  have hd : Gen.N3_pk2_to_cauchy_den0 c c3 fn p (tensv F) ≠ 0 := by
+    have : Gen.N3_pk2_to_cauchy_den0 c c3 fn p (tensv F) = F.det := by
+      obtain ⟨f00,f01,f02,f10,f11,f12,f20,f21,f22⟩ := F
+      c23_unfold; ring
+    rw [this]; exact hJ
   obtain ⟨f00,f01,f02,f10,f11,f12,f20,f21,f22⟩ := F
   c23_rat hc with hd
 end N3
 
-section N3b
-variable (F : M3 K) (a00 a11 a22 a01 a02 a12 u00 u11 u22 u01 u02 u12 : K)
-local notation "σ" => M3.sym a00 a11 a22 a01 a02 a12
-local notation "U" => M3.sym u00 u11 u22 u01 u02 u12
-
-/-- mutually inverse: `σ ↦ S ↦ σ` and `S ↦ σ ↦ S` -/
-theorem N3_pk2_roundtrip (hc : c * c = 2) (h2 : (2:K) ≠ 0) (hJ : F.det ≠ 0) :
-    F.det • (F * M3.ofMandel c (Gen.N3_cauchy_to_pk2_r c c3 fn
-        (Gen.N3_pk2_to_cauchy_rv c c3 fn (mandv c σ) (tensv F)) (tensv F)) * F.transpose)
-      = F.det • (F * σ * F.transpose) := by
+/-! ## 2D -/
+section N2
+variable (f0 f1 f2 f3 f4 : K) (s p u : Nat → K)
+/-- `det` of a tensor is the determinant -/
+theorem N2_det : Gen.N2_det_r c c3 fn (tensv (plane f0 f1 f2 f3 f4)) = (plane f0 f1 f2 f3 f4).det := by
+  c23_unfold; ring
+/-- `invert`: `F * invert F = 1` when `det F ≠ 0` -/
+theorem N2_invert (hc : c * c = 2) (hJ : (plane f0 f1 f2 f3 f4).det ≠ 0) : (plane f0 f1 f2 f3 f4) * M3.ofTens (Gen.N2_invert_r c c3 fn (tensv (plane f0 f1 f2 f3 f4))) = 1 := by
+  obtain ⟨h1, h2'⟩ := plane_det_ne hJ
+  c23_rat hc with h1
+/-- `computeDeterminantDerivative` is the cofactor matrix: `dJ Fᵀ = det F · 1` … -/
+theorem N2_dJ_cofactor (hc : c * c = 2) : M3.ofTens (Gen.N2_dJ_r c c3 fn (tensv (plane f0 f1 f2 f3 f4))) * (plane f0 f1 f2 f3 f4).transpose = (plane f0 f1 f2 f3 f4).det • (1 : M3 K) := by
+  c23_poly hc
+/-- … hence Jacobi's formula along `δF = L F`: `dJ : δF = det F · tr L` -/
+theorem N2_dJ_jacobi (l0 l1 l2 l3 l4 : K) : dot (Gen.N2_dJ_r c c3 fn (tensv (plane f0 f1 f2 f3 f4))) (M3.tens2 ((plane l0 l1 l2 l3 l4) * (plane f0 f1 f2 f3 f4))) = (plane f0 f1 f2 f3 f4).det * (plane l0 l1 l2 l3 l4).trace := by
+  c23_unfold; ring
+/-- right Cauchy–Green tensor `C = FᵀF` and Green–Lagrange strain `E = (C − 1)/2` -/
+theorem N2_rightCauchyGreen (hc : c * c = 2) :
+    Gen.N2_rightCauchyGreen_r c c3 fn (tensv (plane f0 f1 f2 f3 f4)) = M3.mandel2 c ((plane f0 f1 f2 f3 f4).transpose * (plane f0 f1 f2 f3 f4)) := by
+  c23_poly hc
+theorem N2_greenLagrange (hc : c * c = 2) (h2 : (2:K) ≠ 0) :
+    Gen.N2_greenLagrange_r c c3 fn (tensv (plane f0 f1 f2 f3 f4)) = M3.mandel2 c ((1/2 : K) • ((plane f0 f1 f2 f3 f4).transpose * (plane f0 f1 f2 f3 f4) - 1)) := by
   have hc0 : c ≠ 0 := c_ne_zero hc h2
-  have h1 := N3_cauchy_to_pk2 c c3 fn F
-  sorry
+  c23_rat0 hc
+/-- `unsyme` writes a symmetric tensor in full tensor storage -/
+theorem N2_unsyme (hc : c * c = 2) (h2 : (2:K) ≠ 0) :
+    M3.ofTens (Gen.N2_unsyme_r c c3 fn s) = M3.ofMandel c [s 0, s 1, s 2, s 3] := by
+  have hc0 : c ≠ 0 := c_ne_zero hc h2
+  c23_rat0 hc
+/-- `push_forward(S, F) = F S Fᵀ` -/
+theorem N2_push_forward (hc : c * c = 2) (h2 : (2:K) ≠ 0) :
+    M3.ofMandel c (Gen.N2_push_forward_r c c3 fn s (tensv (plane f0 f1 f2 f3 f4))) = (plane f0 f1 f2 f3 f4) * M3.ofMandel c [s 0, s 1, s 2, s 3] * (plane f0 f1 f2 f3 f4).transpose := by
+  have hc0 : c ≠ 0 := c_ne_zero hc h2
+  c23_rat0 hc
+/-! ### first Piola–Kirchhoff stress: `P Fᵀ = J σ` -/
+theorem N2_cauchy_to_pk1 (hc : c * c = 2) (h2 : (2:K) ≠ 0) :
+    M3.ofTens (Gen.N2_cauchy_to_pk1_r c c3 fn s (tensv (plane f0 f1 f2 f3 f4))) * (plane f0 f1 f2 f3 f4).transpose = (plane f0 f1 f2 f3 f4).det • M3.ofMandel c [s 0, s 1, s 2, s 3] := by
+  have hc0 : c ≠ 0 := c_ne_zero hc h2
+  c23_rat0 hc
+/-- `J σ = P Fᵀ`; the code reads the lower triangle of `P Fᵀ` (symmetric for a physical `P`) -/
+theorem N2_pk1_to_cauchy (hc : c * c = 2) (h2 : (2:K) ≠ 0) (hJ : (plane f0 f1 f2 f3 f4).det ≠ 0) :
+    (plane f0 f1 f2 f3 f4).det • M3.ofMandel c (Gen.N2_pk1_to_cauchy_r c c3 fn p (tensv (plane f0 f1 f2 f3 f4))) = symLower (M3.ofTens [p 0, p 1, p 2, p 3, p 4] * (plane f0 f1 f2 f3 f4).transpose) := by
+  have hc0 : c ≠ 0 := c_ne_zero hc h2
+  obtain ⟨h1, h2'⟩ := plane_det_ne hJ
+  c23_rat hc with h1
+/-! ### second Piola–Kirchhoff stress: `F S Fᵀ = J σ` -/
+theorem N2_cauchy_to_pk2 (hc : c * c = 2) (h2 : (2:K) ≠ 0) (hJ : (plane f0 f1 f2 f3 f4).det ≠ 0) :
+    (plane f0 f1 f2 f3 f4) * M3.ofMandel c (Gen.N2_cauchy_to_pk2_r c c3 fn s (tensv (plane f0 f1 f2 f3 f4))) * (plane f0 f1 f2 f3 f4).transpose = (plane f0 f1 f2 f3 f4).det • M3.ofMandel c [s 0, s 1, s 2, s 3] := by
+  have hc0 : c ≠ 0 := c_ne_zero hc h2
+  obtain ⟨h1, h2'⟩ := plane_det_ne hJ
+  c23_rat hc with h1
+/-- `J σ = F S Fᵀ` (`p` is the stored second Piola–Kirchhoff stress) -/
+theorem N2_pk2_to_cauchy (hc : c * c = 2) (h2 : (2:K) ≠ 0) (hJ : (plane f0 f1 f2 f3 f4).det ≠ 0) :
+    (plane f0 f1 f2 f3 f4).det • M3.ofMandel c (Gen.N2_pk2_to_cauchy_r c c3 fn p (tensv (plane f0 f1 f2 f3 f4))) = (plane f0 f1 f2 f3 f4) * M3.ofMandel c [p 0, p 1, p 2, p 3] * (plane f0 f1 f2 f3 f4).transpose := by
+  have hc0 : c ≠ 0 := c_ne_zero hc h2
+  obtain ⟨h1, h2'⟩ := plane_det_ne hJ
+  c23_rat hc with h1
+end N2
 
-/-! ### corotational Cauchy stress `σ̃ = Rᵀ σ R` and the right stretch `U`: `U S U = det U · σ̃` -/
-theorem N3_corot_to_pk2_den : Gen.N3_corot_to_pk2_den0 c c3 fn (mandv c σ) (mandv c U) = (U).det := by
-  c23_unfold; c23_ring hc
-end N3b
+/-! ## 1D -/
+section N1
+variable (f0 f1 f2 : K) (s p u : Nat → K)
+/-- `det` of a tensor is the determinant -/
+theorem N1_det : Gen.N1_det_r c c3 fn (tensv (dg f0 f1 f2)) = (dg f0 f1 f2).det := by
+  c23_unfold; ring
+/-- `invert`: `F * invert F = 1` when `det F ≠ 0` -/
+theorem N1_invert (hc : c * c = 2) (hJ : (dg f0 f1 f2).det ≠ 0) : (dg f0 f1 f2) * M3.ofTens (Gen.N1_invert_r c c3 fn (tensv (dg f0 f1 f2))) = 1 := by
+  obtain ⟨h0, h1, h2'⟩ := dg_det_ne hJ
+  c23_rat0 hc
+/-- `computeDeterminantDerivative` is the cofactor matrix: `dJ Fᵀ = det F · 1` … -/
+theorem N1_dJ_cofactor (hc : c * c = 2) : M3.ofTens (Gen.N1_dJ_r c c3 fn (tensv (dg f0 f1 f2))) * (dg f0 f1 f2).transpose = (dg f0 f1 f2).det • (1 : M3 K) := by
+  c23_poly hc
+/-- … hence Jacobi's formula along `δF = L F`: `dJ : δF = det F · tr L` -/
+theorem N1_dJ_jacobi (l0 l1 l2 : K) : dot (Gen.N1_dJ_r c c3 fn (tensv (dg f0 f1 f2))) (M3.tens1 ((dg l0 l1 l2) * (dg f0 f1 f2))) = (dg f0 f1 f2).det * (dg l0 l1 l2).trace := by
+  c23_unfold; ring
+/-- right Cauchy–Green tensor `C = FᵀF` and Green–Lagrange strain `E = (C − 1)/2` -/
+theorem N1_rightCauchyGreen (hc : c * c = 2) :
+    Gen.N1_rightCauchyGreen_r c c3 fn (tensv (dg f0 f1 f2)) = M3.mandel1 ((dg f0 f1 f2).transpose * (dg f0 f1 f2)) := by
+  c23_poly hc
+theorem N1_greenLagrange (hc : c * c = 2) (h2 : (2:K) ≠ 0) :
+    Gen.N1_greenLagrange_r c c3 fn (tensv (dg f0 f1 f2)) = M3.mandel1 ((1/2 : K) • ((dg f0 f1 f2).transpose * (dg f0 f1 f2) - 1)) := by
+  have hc0 : c ≠ 0 := c_ne_zero hc h2
+  c23_rat0 hc
+/-- `unsyme` writes a symmetric tensor in full tensor storage -/
+theorem N1_unsyme (hc : c * c = 2) (h2 : (2:K) ≠ 0) :
+    M3.ofTens (Gen.N1_unsyme_r c c3 fn s) = M3.ofMandel c [s 0, s 1, s 2] := by
+  have hc0 : c ≠ 0 := c_ne_zero hc h2
+  c23_rat0 hc
+/-- `push_forward(S, F) = F S Fᵀ` -/
+theorem N1_push_forward (hc : c * c = 2) (h2 : (2:K) ≠ 0) :
+    M3.ofMandel c (Gen.N1_push_forward_r c c3 fn s (tensv (dg f0 f1 f2))) = (dg f0 f1 f2) * M3.ofMandel c [s 0, s 1, s 2] * (dg f0 f1 f2).transpose := by
+  have hc0 : c ≠ 0 := c_ne_zero hc h2
+  c23_rat0 hc
+/-! ### first Piola–Kirchhoff stress: `P Fᵀ = J σ` -/
+theorem N1_cauchy_to_pk1 (hc : c * c = 2) (h2 : (2:K) ≠ 0) :
+    M3.ofTens (Gen.N1_cauchy_to_pk1_r c c3 fn s (tensv (dg f0 f1 f2))) * (dg f0 f1 f2).transpose = (dg f0 f1 f2).det • M3.ofMandel c [s 0, s 1, s 2] := by
+  have hc0 : c ≠ 0 := c_ne_zero hc h2
+  c23_rat0 hc
+/-- `J σ = P Fᵀ`; the code reads the lower triangle of `P Fᵀ` (symmetric for a physical `P`) -/
+theorem N1_pk1_to_cauchy (hc : c * c = 2) (h2 : (2:K) ≠ 0) (hJ : (dg f0 f1 f2).det ≠ 0) :
+    (dg f0 f1 f2).det • M3.ofMandel c (Gen.N1_pk1_to_cauchy_r c c3 fn p (tensv (dg f0 f1 f2))) = symLower (M3.ofTens [p 0, p 1, p 2] * (dg f0 f1 f2).transpose) := by
+  have hc0 : c ≠ 0 := c_ne_zero hc h2
+  obtain ⟨h0, h1, h2'⟩ := dg_det_ne hJ
+  c23_rat0 hc
+/-! ### second Piola–Kirchhoff stress: `F S Fᵀ = J σ` -/
+theorem N1_cauchy_to_pk2 (hc : c * c = 2) (h2 : (2:K) ≠ 0) (hJ : (dg f0 f1 f2).det ≠ 0) :
+    (dg f0 f1 f2) * M3.ofMandel c (Gen.N1_cauchy_to_pk2_r c c3 fn s (tensv (dg f0 f1 f2))) * (dg f0 f1 f2).transpose = (dg f0 f1 f2).det • M3.ofMandel c [s 0, s 1, s 2] := by
+  have hc0 : c ≠ 0 := c_ne_zero hc h2
+  obtain ⟨h0, h1, h2'⟩ := dg_det_ne hJ
+  c23_rat0 hc
+/-- `J σ = F S Fᵀ` (`p` is the stored second Piola–Kirchhoff stress) -/
+theorem N1_pk2_to_cauchy (hc : c * c = 2) (h2 : (2:K) ≠ 0) (hJ : (dg f0 f1 f2).det ≠ 0) :
+    (dg f0 f1 f2).det • M3.ofMandel c (Gen.N1_pk2_to_cauchy_r c c3 fn p (tensv (dg f0 f1 f2))) = (dg f0 f1 f2) * M3.ofMandel c [p 0, p 1, p 2] * (dg f0 f1 f2).transpose := by
+  have hc0 : c ≠ 0 := c_ne_zero hc h2
+  obtain ⟨h0, h1, h2'⟩ := dg_det_ne hJ
+  c23_rat0 hc
+end N1
+
 end TfelVerif.C23.PropsStress
